@@ -6,11 +6,13 @@ package interp
 // operation is a choice point of the explorer.
 
 import (
+	"strings"
 	"fmt"
 	"sync"
 )
 
 type gor struct {
+	fresh   bool // just given the baton by a voluntary preemption and has not taken effect since
 	id      int
 	wake    chan struct{}
 	done    bool
@@ -209,6 +211,30 @@ func (s *scheduler) yield(kind string) {
 	if !s.i.ex.run.cfg.Sched || len(s.runq) == 0 {
 		return
 	}
+	if ks := s.i.ex.run.cfg.SchedKinds; ks != "" && !strings.Contains(","+ks+",", ","+kind+",") {
+		return
+	}
+	// operations issued from packages the harness declares independent of the property (e.g.
+	// the metrics package when metrics are not the subject) are not scheduling points
+	if sp := s.i.ex.run.cfg.SchedSkipPkgs; sp != "" && kind != "rt" {
+		if c := s.i.extCaller; c != nil && c.fn != nil && c.fn.Pkg != nil && strings.Contains(","+sp+",", ","+c.fn.Pkg.Pkg.Path()+",") {
+			return
+		}
+	}
+	// Reduction (sound for the equivalence "same order of effective visible operations"):
+	// a goroutine that was just preempted *to* takes its next visible operation before it
+	// can be preempted again -- bouncing back without effect equals not having switched.
+	if s.cur.fresh {
+		switch kind {
+		case "unlock": // the release already happened: an effect
+			s.cur.fresh = false
+		case "lock": // decided in lock(): acquiring is an effect, blocking is not
+			return
+		default:
+			s.cur.fresh = false
+			return
+		}
+	}
 	k := s.i.ex.Choice(len(s.runq)+1, "sched")
 	if k == 0 {
 		return
@@ -223,6 +249,7 @@ func (s *scheduler) switchTo(k int) {
 	s.runq = append(s.runq[:k], s.runq[k+1:]...)
 	s.runq = append([]*gor{chosen}, s.runq...)
 	s.runq = append(s.runq, g)
+	chosen.fresh = true
 	s.handoff()
 	<-g.wake
 	if s.killed {
@@ -524,16 +551,24 @@ func (s *scheduler) lock(m *mutexObj, read bool) {
 		if read && m.writer == nil {
 			m.readers[s.cur]++
 			s.cur.held[m]++
+			s.cur.fresh = false
 			return
 		}
 		if !read && m.writer == nil && len(m.readers) == 0 {
 			m.writer = s.cur
 			s.cur.held[m]++
+			s.cur.fresh = false
 			return
 		}
 		if s.cur.id == 0 && len(s.runq) == 0 {
 			// nobody can ever release it
 			s.deadlock("mutex")
+		}
+		if s.cur.fresh {
+			// preempting to a goroutine whose first operation is to block on a held mutex is
+			// equivalent to not preempting there (the attempt has no effect; the goroutine will
+			// attempt again after the release in the schedule that does not preempt)
+			panic(pathEnd{"redundant-schedule"})
 		}
 		m.waitq = append(m.waitq, &mwaiter{s.cur, read})
 		s.block("mutex")
